@@ -16,7 +16,7 @@ theorem memSet_frame (H : Bytes → Bytes) (s : Store) (p : Bytes) (bh : Nat) (k
     (memSet H s p bh kvs).2.db = s.db ∧ (memSet H s p bh kvs).2.cfg = s.cfg := by
   unfold memSet
   split
-  · exact ⟨rfl, rfl⟩
+  · simp only; split <;> exact ⟨rfl, rfl⟩
   · obtain ⟨f1, f2, _⟩ := loadRoot_frame s p
     generalize s.loadRoot p = lr at f1 f2 ⊢
     obtain ⟨res, s'⟩ := lr
@@ -150,7 +150,7 @@ theorem memSet_cacheOK (H : Bytes → Bytes) (s : Store) (hc : CacheOK s) (p : B
     (kvs : List (Bytes × Bytes)) : CacheOK (memSet H s p bh kvs).2 := by
   unfold memSet
   split
-  · exact hc
+  · simp only; split <;> exact hc
   · obtain ⟨_, b⟩ := loadRoot_result s hc p
     generalize s.loadRoot p = lr at b ⊢
     obtain ⟨res, s'⟩ := lr
@@ -207,5 +207,219 @@ theorem run_cacheOK (H : Bytes → Bytes) (ls : List Label) (hl : ∀ l ∈ ls, 
     | rollback r => exact rollback_cacheOK s hc r
     | get r ks => exact get_cacheOK s hc r ks
     | restart => exact reopen_cacheOK s
+
+/-! ### pending entries are hashed, unsaved trees stored under their own root hash -/
+
+theorem set_root_info (t : Node) (k v : Bytes) : ∀ t' u, t.set k v = some (t', u) → t'.info = Meta.fresh := by
+  intro t' u e
+  cases t with
+  | leaf nk nv m =>
+    simp only [Node.set] at e
+    split at e <;> (simp at e; obtain ⟨rfl, rfl⟩ := e; rfl)
+  | inner nk h s l r m =>
+    simp only [Node.set] at e
+    split at e
+    · cases hs : l.set k v with
+      | none => simp [hs] at e
+      | some p =>
+        obtain ⟨l', ul⟩ := p
+        rw [hs] at e
+        cases ul with
+        | true => simp at e; obtain ⟨rfl, rfl⟩ := e; rfl
+        | false =>
+          obtain ⟨n', hb, hc⟩ := balance_cases nk (max l'.height r.height + 1) (l'.size + r.size) l' r Meta.fresh
+          simp only [Node.mk, hb, Option.map_some] at e
+          simp at e; obtain ⟨rfl, rfl⟩ := e
+          cases hc <;> rfl
+    · cases hs : r.set k v with
+      | none => simp [hs] at e
+      | some p =>
+        obtain ⟨r', ur⟩ := p
+        rw [hs] at e
+        cases ur with
+        | true => simp at e; obtain ⟨rfl, rfl⟩ := e; rfl
+        | false =>
+          obtain ⟨n', hb, hc⟩ := balance_cases nk (max l.height r'.height + 1) (l.size + r'.size) l r' Meta.fresh
+          simp only [Node.mk, hb, Option.map_some] at e
+          simp at e; obtain ⟨rfl, rfl⟩ := e
+          cases hc <;> rfl
+
+theorem setMany_root_info (kvs : List (Bytes × Bytes)) (hne : kvs ≠ []) :
+    ∀ (t : Tree) (n : Node), Tree.setMany t kvs = some (some n) → n.info = Meta.fresh := by
+  induction kvs with
+  | nil => exact absurd rfl hne
+  | cons kv rest ih =>
+    obtain ⟨k, v⟩ := kv
+    intro t n e
+    simp only [Tree.setMany] at e
+    cases hs : Tree.set t k v with
+    | none => simp [hs] at e
+    | some p =>
+      obtain ⟨t1, u⟩ := p
+      rw [hs] at e
+      simp only at e
+      by_cases hr : rest = []
+      · subst hr
+        simp [Tree.setMany] at e
+        subst e
+        cases t with
+        | none => simp [Tree.set] at hs; obtain ⟨rfl, _⟩ := hs; rfl
+        | some n0 =>
+          simp only [Tree.set] at hs
+          cases h0 : n0.set k v with
+          | none => simp [h0] at hs
+          | some q =>
+            obtain ⟨n1, u1⟩ := q
+            simp [h0] at hs
+            obtain ⟨rfl, _⟩ := hs
+            exact set_root_info n0 k v n1 u1 h0
+      · exact ih hr t1 n e
+
+theorem hashNode_info (H : Bytes → Bytes) (cfg : Cfg) (bh rh : Nat) (t : Node) :
+    (hashNode H cfg bh rh t).1.info.hk = some (hashNode H cfg bh rh t).2 ∧
+    (hashNode H cfg bh rh t).1.info.persisted = t.info.persisted := by
+  cases t with
+  | leaf k v m =>
+    cases hm : m.hk with
+    | some h => simp [hashNode, hm, Node.info]
+    | none => simp [hashNode, hm, Node.info]
+  | inner k ht sz l r m =>
+    cases hm : m.hk with
+    | some h => simp [hashNode, hm, Node.info]
+    | none => simp [hashNode, hm, Node.info]
+
+/-- every pending tree is stored under its own root key and has not been saved. -/
+def PendOK (s : Store) : Prop :=
+  ∀ r n, lookupTree s.trees r = some (some n) → n.info.hk = some r ∧ n.info.persisted = false
+
+theorem lookupTree_storeTree_ne (ts : List (Bytes × Option Node)) (h h' : Bytes) (t : Option Node) (hne : h ≠ h') :
+    lookupTree (storeTree ts h t) h' = lookupTree ts h' := by
+  have e : (h == h') = false := by simpa using hne
+  simp only [lookupTree, storeTree, List.find?_cons, e]
+  congr 1
+  induction ts with
+  | nil => rfl
+  | cons a rest ih =>
+    by_cases ha : a.1 = h
+    · have : (a.1 == h') = false := by rw [ha]; exact e
+      have hb : (a.1 == h) = true := by simpa using ha
+      simp only [List.filter_cons, hb, Bool.not_true, Bool.false_eq_true, if_false, List.find?_cons, this]
+      exact ih
+    · have hb : (a.1 == h) = false := by simpa using ha
+      by_cases hc : (a.1 == h') = true
+      · simp [List.filter_cons, hb, List.find?_cons, hc]
+      · simp [List.filter_cons, hb, List.find?_cons, hc, ih]
+
+/-- one `MemSet` (any parent, height, writes): pending entries stay well formed, and a root that has a pending
+tree keeps having one. -/
+theorem memSet_pending (H : Bytes → Bytes) (s : Store) (hp : PendOK s) (p : Bytes) (bh : Nat)
+    (kvs : List (Bytes × Bytes)) :
+    PendOK (memSet H s p bh kvs).2 ∧
+    ∀ r n, lookupTree s.trees r = some (some n) → ∃ n', lookupTree (memSet H s p bh kvs).2.trees r = some (some n') := by
+  unfold memSet
+  split
+  · simp only
+    cases hl : lookupTree s.trees p with
+    | some x => exact ⟨hp, fun r n h => ⟨n, h⟩⟩
+    | none =>
+      simp only
+      refine ⟨?_, ?_⟩
+      · intro r n h
+        by_cases e : p = r
+        · subst e; rw [lookupTree_storeTree_self] at h; cases h
+        · rw [lookupTree_storeTree_ne _ _ _ _ e] at h; exact hp r n h
+      · intro r n h
+        have e : p ≠ r := by intro x; subst x; rw [hl] at h; cases h
+        exact ⟨n, by rw [lookupTree_storeTree_ne _ _ _ _ e]; exact h⟩
+  · rename_i hne
+    obtain ⟨_, _, ft⟩ := loadRoot_frame s p
+    generalize s.loadRoot p = lr at ft ⊢
+    obtain ⟨res, s'⟩ := lr
+    simp only at ft
+    have hp' : PendOK s' := by intro r n h; rw [ft] at h; exact hp r n h
+    have keep : ∀ r n, lookupTree s.trees r = some (some n) → ∃ n', lookupTree s'.trees r = some (some n') :=
+      fun r n h => ⟨n, by rw [ft]; exact h⟩
+    cases res with
+    | notfound => exact ⟨hp', keep⟩
+    | panic => exact ⟨hp', keep⟩
+    | ok t =>
+      simp only
+      cases hsm : Tree.setMany t kvs with
+      | none => exact ⟨hp', keep⟩
+      | some t' =>
+        cases t' with
+        | none => exact ⟨hp', keep⟩
+        | some n =>
+          simp only
+          have hi := setMany_root_info kvs (by intro x; subst x; simp at hne) t n hsm
+          obtain ⟨a, b⟩ := hashNode_info H s'.cfg bh n.height n
+          change (hashRoot H s'.cfg bh n).1.info.hk = some (hashRoot H s'.cfg bh n).2 at a
+          change (hashRoot H s'.cfg bh n).1.info.persisted = n.info.persisted at b
+          generalize hashRoot H s'.cfg bh n = hr at a b ⊢
+          obtain ⟨n', root⟩ := hr
+          simp only at a b ⊢
+          refine ⟨?_, ?_⟩
+          · intro r m h
+            by_cases e : root = r
+            · subst e; rw [lookupTree_storeTree_self] at h
+              cases h
+              exact ⟨a, by rw [b, hi]; rfl⟩
+            · rw [lookupTree_storeTree_ne _ _ _ _ e] at h; exact hp' r m h
+          · intro r m h
+            by_cases e : root = r
+            · subst e; exact ⟨n', lookupTree_storeTree_self _ _ _⟩
+            · obtain ⟨m', hm'⟩ := keep r m h
+              exact ⟨m', by rw [lookupTree_storeTree_ne _ _ _ _ e]; exact hm'⟩
+
+def Label.isMemSet : Label → Bool
+  | .memSet .. => true
+  | _ => false
+
+theorem run_memSets_pending (H : Bytes → Bytes) (ls : List Label) (hl : ∀ l ∈ ls, l.isMemSet = true) :
+    ∀ s, PendOK s → PendOK (run H s ls) ∧
+      ∀ r n, lookupTree s.trees r = some (some n) → ∃ n', lookupTree (run H s ls).trees r = some (some n') := by
+  induction ls with
+  | nil => intro s hp; exact ⟨hp, fun r n h => ⟨n, h⟩⟩
+  | cons l rest ih =>
+    intro s hp
+    have hm := hl l (by simp)
+    cases l with
+    | memSet p bh kvs =>
+      obtain ⟨a, b⟩ := memSet_pending H s hp p bh kvs
+      obtain ⟨c, d⟩ := ih (fun x hx => hl x (by simp [hx])) _ a
+      refine ⟨c, ?_⟩
+      intro r n h
+      obtain ⟨n1, h1⟩ := b r n h
+      exact d r n1 h1
+    | set => simp [Label.isMemSet] at hm
+    | commit => simp [Label.isMemSet] at hm
+    | rollback => simp [Label.isMemSet] at hm
+    | get => simp [Label.isMemSet] at hm
+    | restart => simp [Label.isMemSet] at hm
+
+theorem insertAll_last (db : NodeDB) (ws : List (Bytes × Bytes)) (k v : Bytes) :
+    (insertAll db (ws ++ [(k, v)]))[k]? = some v := by
+  simp [insertAll, List.foldl_append]
+
+/-- saving an unsaved tree writes the record of its root. -/
+theorem save_root_record (cfg : Cfg) (n n' : Node) (db db' : NodeDB) (r : Bytes)
+    (hs : save cfg n db = some (n', db')) (hr : n.info.hk = some r) (hp : n.info.persisted = false) :
+    db'[r]? ≠ none := by
+  obtain ⟨ws, hw, _, rfl⟩ := save_eq cfg n db n' db' hs
+  cases n with
+  | leaf k v m =>
+    simp only [Node.info] at hr hp
+    simp [writes, hr, hp] at hw
+    subst hw
+    simp [insertAll]
+  | inner k ht sz l r' m =>
+    simp only [Node.info] at hr hp
+    simp only [writes, hr, hp, Bool.false_eq_true, if_false] at hw
+    split at hw
+    · simp at hw
+      subst hw
+      rw [← List.append_assoc, insertAll_last]
+      simp
+    · simp at hw
 
 end C04
